@@ -251,11 +251,25 @@ def run(ctx):
                      'free-root quaternion update compared with the reference in the relational part only']
   os.makedirs(tlc.WORK, exist_ok=True)
   cfg = os.path.join(tlc.WORK, 'c02.cfg')
-  tlc.write_cfg(cfg, constants={'Class': '"any"', 'MaxLinks': 2 if q else 3, 'NModels': 60 if q else 800,
-                                'NPoses': 2, 'Budget': 1, 'SeedBase': core.seed_base(ctx, 2)},
-                invariants=['MassSymmetric', 'MassPositive', 'ModelWellFormed'])
   dump = os.path.join(tlc.WORK, 'c02')
-  res = tlc.run('Dynamics', cfg, name='c02', dump=dump, seed=ctx.seed + 21, expect_ok=True)  # (-coverage exhausts the heap on the deep rational recursion)
+  # 32-bit budget of the exact inertia sums: three-link chains may overflow with a /5 rotation in them (a loud TLC error);
+  # fall back to rotation-free three-link models, then to two links
+  res = None
+  for maxl, budget in ([(2, 1)] if q else [(3, 1), (3, 0), (2, 1)]):
+    tlc.write_cfg(cfg, constants={'Class': '"any"', 'MaxLinks': maxl, 'NModels': 60 if q else 800,
+                                  'NPoses': 2, 'Budget': budget, 'SeedBase': core.seed_base(ctx, 2)},
+                  invariants=['MassSymmetric', 'MassPositive', 'ModelWellFormed'])
+    try:
+      res = tlc.run('Dynamics', cfg, name='c02', dump=dump, seed=ctx.seed + 21, expect_ok=True)  # (-coverage exhausts the heap on the deep rational recursion)
+    except tlc.MachineryError as e:
+      if 'Overflow' not in str(e) and 'Overflow' not in open(os.path.join(tlc.WORK, 'c02', 'tlc.out')).read():
+        raise
+      ctx.note(f'Dynamics.tla MaxLinks={maxl} Budget={budget}: 32-bit overflow in the exact sums, retrying with a smaller budget')
+      continue
+    ctx.extra['exact_model_space'] = {'MaxLinks': maxl, 'Budget': budget}
+    break
+  if res is None:
+    raise tlc.MachineryError('Dynamics.tla overflows at every budget')
   ctx.add_tlc(res, 'Dynamics.tla')
   cases = []
   for s in c01.done_states(dump + '.dump'):
